@@ -44,8 +44,10 @@ def add_lists : List (List String) := [["buf", "not"], ["0", "1", "x", "input"]]
 def connect_lists : List (List String) :=
   [["input", "0", "1", "x", "bb_output"], ["bb_input", "buf", "not"], ["bb_input"], ["bb_output"]]
 
-/-- `remove_unloaded`: never initially listed; skipped when `inputs=False` -/
-def remove_unloaded_lists : List (List String) := [["bb_input"], ["input", "bb_output"]]
+/-- `remove_unloaded`: never initially listed; not initially listed when `inputs=False` (K3 fix);
+    skipped as a fan-in when `inputs=False` -/
+def remove_unloaded_lists : List (List String) :=
+  [["bb_input"], ["input", "bb_output"], ["input", "bb_output"]]
 
 /-- `lint`: zero-input, single-input, multi-input types (after the K19 fix) -/
 def lint_lists : List (List String) :=
